@@ -112,7 +112,7 @@ class Module:
             raise AnalysisError(f"anchor vanished: module-level name {name} not found in {self.rel}")
         return val
 
-    def ev(self, qual, roles=None, **kw) -> Ev:
+    def ev(self, qual, roles=None, post=None, **kw) -> Ev:
         """Evaluate a function.  ``roles`` ({canonical local name: role specification}, sa/roles.py) lets the caller refer to
         locals by canonical names whatever the source calls them."""
         fn = self.func(qual)
@@ -132,6 +132,10 @@ class Module:
                     expanded = list(expanded) + list(more)
                     folded = True
             inlined = bool(expanded) or folded
+            if post is not None:
+                # a rule-specific normal form (sa/normalise.py), applied to the expanded function
+                fn = post(fn)
+                inlined = True
         if roles is None:
             from .rolespecs import ROLES
             try:
